@@ -582,6 +582,156 @@ theorem kind_run : ∀ (es : List Event) (s s' : State), run s es = some s' → 
     · rename_i s1 hs
       rw [kind_run es s1 s' h, kind_step s s1 e hs]
 
+/-! ### the queue invariant -/
+
+/-- the waiter queue has no repetitions and holds exactly tasks suspended in `await fut` -/
+structure QInv (s : State) : Prop where
+  nodup : s.queue.Nodup
+  waiting : ∀ t ∈ s.queue, (s.w t).pc = .waiting
+
+theorem qinv_init (k : Kind) : QInv (init k) := by
+  constructor <;> simp [init]
+
+theorem qinv_setW (s : State) (o : Option Nat) (j : Nat) (x : Waiter) (q : QInv s)
+    (h : j ∈ s.queue → x.pc = .waiting) :
+    QInv { s with owner := o, w := setW s.w j x } := by
+  refine ⟨q.nodup, fun t ht => ?_⟩
+  by_cases htj : t = j
+  · subst htj; simp only [setW, if_true]; exact h ht
+  · simp only [setW, htj, if_false]; exact q.waiting t ht
+
+theorem qinv_finish (s : State) (j : Nat) (q : QInv s) (hj : (s.w j).pc ≠ .waiting) :
+    QInv (finish s j) := by
+  have hnot : j ∉ s.queue := fun h => hj (q.waiting j h)
+  refine ⟨q.nodup, fun t ht => ?_⟩
+  have htj : t ≠ j := fun h => hnot (h ▸ ht)
+  have hs : SameButFut
+      ((if (decide (outcome (s.w j) ≠ .ret) && decide (s.kind = .pc)) = true
+          then notifyFn .pc 1 s.w s.queue else (s.w, [])).1 t) (s.w t) := by
+    split
+    · exact notifyFn_same .pc 1 s.w s.queue t
+    · exact SameButFut.rfl' _
+  simp only [finish, setW, htj, if_false]
+  rw [hs.1]; exact q.waiting t ht
+
+theorem qinv_step (s s' : State) (ev : Event) (q : QInv s) (h : step s ev = some s') : QInv s' := by
+  cases ev with
+  | acq j =>
+    simp only [step] at h; split at h
+    · injection h with h; subst h; exact ⟨q.nodup, q.waiting⟩
+    · cases h
+  | rel j =>
+    simp only [step] at h; split at h
+    · injection h with h; subst h; exact ⟨q.nodup, q.waiting⟩
+    · cases h
+  | wfStart j =>
+    simp only [step] at h; split at h
+    · injection h with h; subst h
+      exact qinv_setW s s.owner j _ q (fun hj => q.waiting j hj)
+    · cases h
+  | wfPred j b =>
+    simp only [step] at h; split at h
+    · cases b
+      · simp at h; subst h; exact q
+      · simp only [if_true] at h
+        injection h with h; subst h
+        refine ⟨q.nodup, fun t ht => ?_⟩
+        by_cases htj : t = j
+        · subst htj; simp only [setW, if_true]; exact q.waiting t ht
+        · simp only [setW, htj, if_false]; exact q.waiting t ht
+    · cases h
+  | waitStart j pri =>
+    simp only [step] at h; split at h
+    · rename_i hc
+      injection h with h; subst h
+      have hnot : j ∉ s.queue := fun hj => by
+        have := q.waiting j hj; rw [hc.2] at this; cases this
+      refine ⟨?_, fun t ht => ?_⟩
+      · exact List.nodup_append.mpr ⟨q.nodup, by simp, by
+          intro a ha b hb; simp at hb; subst hb; exact fun h => hnot (h ▸ ha)⟩
+      · simp only [List.mem_append, List.mem_singleton] at ht
+        by_cases htj : t = j
+        · subst htj; simp [setW]
+        · simp only [setW, htj, if_false]
+          rcases ht with ht | ht
+          · exact q.waiting t ht
+          · exact absurd ht htj
+    · cases h
+  | deliver j e c =>
+    simp only [step] at h; split at h
+    · injection h with h; subst h
+      exact qinv_setW s s.owner j _ q (fun hj => q.waiting j hj)
+    · cases h
+  | wake j r =>
+    simp only [step] at h; split at h
+    · cases r with
+      | ok =>
+        simp only at h; split at h
+        · injection h with h; subst h
+          refine ⟨q.nodup.erase j, fun t ht => ?_⟩
+          have := (List.Nodup.mem_erase_iff q.nodup).mp ht
+          simp only [setW, this.1, if_false]; exact q.waiting t this.2
+        · cases h
+      | exc e =>
+        simp only at h; split at h
+        · injection h with h; subst h
+          refine ⟨q.nodup.erase j, fun t ht => ?_⟩
+          have := (List.Nodup.mem_erase_iff q.nodup).mp ht
+          simp only [setW, this.1, if_false]; exact q.waiting t this.2
+        · cases h
+    · cases h
+  | acqBlock j =>
+    simp only [step] at h; split at h
+    · rename_i hc
+      injection h with h; subst h
+      exact qinv_setW s s.owner j _ q (fun hj => by have := q.waiting j hj; rw [hc] at this; cases this)
+    · cases h
+  | acqImm j =>
+    simp only [step] at h; split at h
+    · rename_i hc
+      injection h with h; subst h
+      exact qinv_finish _ j ⟨q.nodup, q.waiting⟩ (by simp [hc.1])
+    · cases h
+  | acqOk j =>
+    simp only [step] at h; split at h
+    · rename_i hc
+      injection h with h; subst h
+      exact qinv_finish _ j ⟨q.nodup, q.waiting⟩ (by simp [hc.1])
+    · cases h
+  | acqExc j e =>
+    simp only [step] at h; split at h
+    · rename_i hc
+      injection h with h; subst h
+      exact qinv_setW s s.owner j _ q (fun hj => by have := q.waiting j hj; rw [hc.1] at this; cases this)
+    · cases h
+  | notify j n =>
+    simp only [step] at h; split at h
+    · injection h with h; subst h
+      exact ⟨q.nodup, fun t ht => by
+        show ((notifyFn s.kind n s.w s.queue).1 t).pc = _
+        rw [(notifyFn_same s.kind n s.w s.queue t).1]; exact q.waiting t ht⟩
+    · cases h
+  | notifyAll j =>
+    simp only [step] at h; split at h
+    · injection h with h; subst h
+      exact ⟨q.nodup, fun t ht => by
+        show ((notifyFn s.kind _ s.w s.queue).1 t).pc = _
+        rw [(notifyFn_same s.kind _ s.w s.queue t).1]; exact q.waiting t ht⟩
+    · cases h
+
+theorem qinv_run : ∀ (es : List Event) (s s' : State), QInv s → run s es = some s' → QInv s'
+  | [], s, s', g, h => by simp [run] at h; subst h; exact g
+  | e :: es, s, s', g, h => by
+    simp only [run] at h
+    split at h
+    · cases h
+    · rename_i s1 hs
+      exact qinv_run es s1 s' (qinv_step s s1 e g hs) h
+
+theorem qinv_reachable {k : Kind} {s : State} (h : Reachable k s) : QInv s := by
+  obtain ⟨es, h⟩ := h
+  exact qinv_run es _ _ (qinv_init k) h
+
 end Asynkit.Cond
 
 /-! ### `ordereditems()` keeps the multiset of entries (any lawful heapq) -/
